@@ -7,9 +7,15 @@ import (
 	"testing"
 )
 
-func c10Obs(t *Ty, data []byte) string {
+func c10Obs(t *Ty, data []byte) string { return c10ObsInto(t, data, nil) }
+
+// c10ObsInto decodes into a fresh destination (prev == nil) or into one that already holds prev.
+func c10ObsInto(t *Ty, data []byte, prev *Val) string {
 	res := guard(func() string {
 		dst := newFlat(t)
+		if prev != nil {
+			dst = flatOf(t, prev)
+		}
 		if err := flatDecode(dst, data); err != nil {
 			return "res=ERR reenc=-"
 		}
@@ -29,6 +35,8 @@ func TestC10(t *testing.T) {
 	out := openOut(t, "C10")
 	defer out.close()
 	seen := map[string]bool{}
+	reuseCount := 0
+	reuseGen := &gen{r: newRng(1010), maxElem: 4}
 	do := func(tag string, ty *Ty, d []byte) {
 		if ty.IsFixed() { // variable-size top level only: the library decides every scope
 			return
@@ -39,6 +47,12 @@ func TestC10(t *testing.T) {
 		}
 		seen[key] = true
 		out.emit(tag, "c10", []string{ty.Sexp(), hexBytes(d)}, c10Obs(ty, d))
+		// every 16th case also into a recycled destination: what it held before must not matter
+		// (same model case: the model's answer does not depend on the prior state, C10 is stated
+		// for every prior state)
+		if reuseCount++; reuseCount%16 == 0 {
+			out.emit(tag+"-reuse", "c10", []string{ty.Sexp(), hexBytes(d)}, c10ObsInto(ty, d, reuseGen.val(ty)))
+		}
 	}
 	full := []byte{}
 	for b := 0; b < 256; b++ {
@@ -70,6 +84,7 @@ func TestC10(t *testing.T) {
 			offsetTables(c, maxP, func(d []byte) { do("offtab", ty, d) })
 		}
 	}
+	overLimitCases(newRng(1033), func(ty *Ty, d []byte) { do("overlimit", ty, d) })
 	n := 260
 	if thorough() {
 		n = 5000
